@@ -209,6 +209,8 @@ class Ops:
         if isinstance(a, STuple) and isinstance(b, STuple) and len(a.items) == len(b.items):
             return STuple([self.ite(c, x, y) for x, y in zip(a.items, b.items)])
         try:
+            if isinstance(a, (SList, SSet, SDict)) or isinstance(b, (SList, SSet, SDict)):
+                raise Unsupported("merge of containers")
             return SVal(z3.If(c, self.to_val(a), self.to_val(b)))
         except Unsupported:
             raise Unsupported(f"ite merge {type(a).__name__}/{type(b).__name__}")
@@ -371,6 +373,11 @@ class Ops:
                 if z3.is_true(z3.simplify(c)):
                     return TRUE, vv
                 if z3.is_false(z3.simplify(c)):
+                    continue
+                if isinstance(vv, (SList, SSet, SDict, SObj, SFunc)) and not self.I.pure:
+                    # container-valued entry under a symbolic key: decide the key by forking
+                    if self.st.branch(c):
+                        return TRUE, vv
                     continue
                 val = vv if val is None else self.ite(c, vv, val)
                 has = z3.Or(has, c)
